@@ -156,7 +156,7 @@ pub fn run(opts: &Opts, corpus: &[Case], reg: &BTreeMap<usize, &Entry>, sink: &m
 }
 
 pub fn reference(case: &Case, input: &str, answers: &Answers, opts: Options) -> Outcome {
-    let mut hooks = RefHooks { answers };
+    let mut hooks = RefHooks { answers, budget: user::BUDGET };
     interp::run(&case.grammar, &case.root, input, &mut hooks, opts)
 }
 
